@@ -161,14 +161,27 @@ func printVal(v reflect.Value) string {
 //gosym:reach rendered
 func H_C18_letGlobal() {
 	depth := ndChoice("depth", 3)
+	topDecl := ndBool("topDecl")   // whether the top-level scope has already declared something
+	varmap := ndChoice("varmap", 3) // 0: nil VarMap, 1: empty VarMap, 2: VarMap with an entry
 	open, close := "", ""
 	for i := 0; i < depth; i++ {
 		open += `{{ if true }}{{ d` + ndItoa(i) + ` := 1 }}`
 		close += `{{ end }}`
 	}
-	set := hxSet(nil, "/m.jet", `{{ top := 1 }}`+open+`{{ g() }}[{{ isset(G) ? G : "-" }}]`+close+`<{{ isset(G) ? G : "-" }}>{{ if true }}({{ isset(G) ? G : "-" }}){{ end }}`)
-	vars := make(VarMap)
-	vars.SetFunc("g", c18Op("letglobal", "G", "gv"))
+	top := ""
+	if topDecl {
+		top = `{{ top := 1 }}`
+	}
+	set := hxSet(nil, "/m.jet", top+open+`{{ g() }}[{{ isset(G) ? G : "-" }}]`+close+`<{{ isset(G) ? G : "-" }}>{{ if true }}({{ isset(G) ? G : "-" }}){{ end }}`)
+	set.AddGlobalFunc("g", c18Op("letglobal", "G", "gv"))
+	var vars VarMap
+	switch varmap {
+	case 1:
+		vars = make(VarMap)
+	case 2:
+		vars = make(VarMap)
+		vars.Set("other", 1)
+	}
 	out, err := hxExec(set, "/m.jet", vars, nil)
 	vfReach("rendered")
 	vfAssert(err == nil, "renders")
@@ -239,4 +252,64 @@ func H_C18_nilVarMap() {
 	vfReach("rendered")
 	vfAssert(err == nil, "no failure with a nil VarMap")
 	vfAssert(out == "[new]", "the binding is visible afterwards")
+}
+
+// c18IsSetPattern reports, for a jet.Func, which argument positions IsSet says are set
+// and the number of arguments - without evaluating them.
+func c18IsSetPattern(a Arguments) reflect.Value {
+	n := a.NumOfArguments()
+	s := ndItoa(n) + ":"
+	for i := 0; i < n; i++ {
+		if a.IsSet(i) {
+			s += "1"
+		} else {
+			s += "0"
+		}
+	}
+	return reflect.ValueOf(s)
+}
+
+// H_C18_arguments: Arguments.IsSet / NumOfArguments / Get present piped and slot-placed
+// values at the positions a reflected Go function would receive them: for each call shape
+// (plain, piped, piped with the slot at each index) with some arguments that are not set
+// (undefined identifiers, nil values), the IsSet pattern and the values Get returns equal
+// those of the equivalent plain call.
+//
+//gosym:reach compared
+func H_C18_arguments() {
+	pairs := [][2]string{
+		{`{{ x | js(undef, _, a) }}`, `{{ js(undef, x, a) }}`},
+		{`{{ x | js(_, undef, a) }}`, `{{ js(x, undef, a) }}`},
+		{`{{ x | js(a, undef, _) }}`, `{{ js(a, undef, x) }}`},
+		{`{{ x | js: undef, a }}`, `{{ js(x, undef, a) }}`},
+		{`{{ x | js(undef) }}`, `{{ js(x, undef) }}`},
+		{`{{ nilv | js(a, _) }}`, `{{ js(a, nilv) }}`},
+		{`{{ nilv | js: a }}`, `{{ js(nilv, a) }}`},
+		{`{{ x | j(a, _, b) }}`, `{{ j(a, x, b) }}`},
+		{`{{ x | j(_, a) }}`, `{{ j(x, a) }}`},
+		{`{{ x | pi(a, _) }}`, `{{ pi(a, x) }}`},
+		{`{{ x | pi: a }}`, `{{ pi(x, a) }}`},
+	}
+	p := ndChoice("pair", len(pairs))
+	x, a, b := ndString("x", 1), ndString("a", 1), ndString("b", 1)
+	mk := func() VarMap {
+		vars := c14Vars(x, a, b)
+		vars.Set("nilv", nil)
+		vars.SetFunc("js", c18IsSetPattern)
+		vars.SetFunc("pi", func(args Arguments) reflect.Value {
+			var s1, s2 string
+			if err := args.ParseInto(&s1, &s2); err != nil {
+				panic(err)
+			}
+			return reflect.ValueOf("pi(" + s1 + "," + s2 + ")")
+		})
+		return vars
+	}
+	set := hxSet([]Option{WithSafeWriter(nil)}, "/s.jet", pairs[p][0], "/p.jet", pairs[p][1])
+	o1, e1 := hxExec(set, "/s.jet", mk(), nil)
+	o2, e2 := hxExec(set, "/p.jet", mk(), nil)
+	vfReach("compared")
+	vfAssert(e1 == nil && e2 == nil, "both forms evaluate")
+	vfNote(o1)
+	vfAssert(o1 == o2, "Arguments presents piped and slot-placed values at the positions of the plain call")
 }
